@@ -7,6 +7,7 @@
 //   --random N --seed S [--pct D] [--notimeout] [--spurious] [--maxsteps M]
 //   --free N --seed S                E5: free-running timed waits, one observation record per call
 //   --linkpool R [--links N]         E5: R rounds of N then() links; one record per round (small-buffer pool size)
+//   --race N [--batch B] --seed S    E5: N free-running rounds of get() / wait() racing the pool task; one record per batch
 //
 // Program text: see spec/future/gen.py.  C++ only drives, records and projects; TLC judges.
 #include <dispenso/future.h>
@@ -14,10 +15,13 @@
 
 #include <unistd.h>
 
+#include <algorithm>
 #include <atomic>
 #include <deque>
 #include <map>
+#include <memory>
 #include <mutex>
+#include <thread>
 
 #include "../ctl/ctl.h"
 #include "../ctl/drv_common.h"
@@ -494,11 +498,15 @@ static void doOp(World* w, const Op& o, int ip) {
     tlsPlanComb = R;
     HIt b{in.data()}, e{in.data() + in.size()};
     size_t n = in.size();
-    if (all && tuple && n == 1 && t == 0) {
-      w->ht1[h] = dispenso::when_all(*in[0]);
+    // all four task-set overloads of when_all are driven (TaskSet / ConcurrentTaskSet x iterator / variadic): C19's
+    // "taskSet.wait() returned => the result is ready" is a statement about each of them
+    if (all && tuple && n == 1) {
+      w->ht1[h] = t == 0 ? dispenso::when_all(*in[0])
+                         : t == 1 ? dispenso::when_all(*w->ts5, *in[0]) : dispenso::when_all(*w->ts6, *in[0]);
       w->hkind[h] = 4;
-    } else if (all && tuple && n == 2 && t == 0) {
-      w->ht2[h] = dispenso::when_all(*in[0], *in[1]);
+    } else if (all && tuple && n == 2) {
+      w->ht2[h] = t == 0 ? dispenso::when_all(*in[0], *in[1])
+                         : t == 1 ? dispenso::when_all(*w->ts5, *in[0], *in[1]) : dispenso::when_all(*w->ts6, *in[0], *in[1]);
       w->hkind[h] = 5;
     } else if (all) {
       Future<std::vector<Future<int>>> r;
@@ -512,10 +520,12 @@ static void doOp(World* w, const Op& o, int ip) {
       w->hkind[h] = 2;
     } else {
       Future<size_t> r;
-      if (tuple && n == 2 && t == 0)
-        r = dispenso::when_any(*in[0], *in[1]);
-      else if (tuple && n == 1 && t == 0)
-        r = dispenso::when_any(*in[0]);
+      if (tuple && n == 2)
+        r = t == 0 ? dispenso::when_any(*in[0], *in[1])
+                   : t == 1 ? dispenso::when_any(*w->ts5, *in[0], *in[1]) : dispenso::when_any(*w->ts6, *in[0], *in[1]);
+      else if (tuple && n == 1)
+        r = t == 0 ? dispenso::when_any(*in[0])
+                   : t == 1 ? dispenso::when_any(*w->ts5, *in[0]) : dispenso::when_any(*w->ts6, *in[0]);
       else if (t == 0)
         r = dispenso::when_any(b, e);
       else if (t == 1)
@@ -834,8 +844,288 @@ static int runLinkPool(const drv::Args& a) {
   return 0;
 }
 
+// ------------------------------------- E5: a waiter races the scheduled task for the claim (C18)
+// The controlled engines interleave the code at its schedule points only: the claim kNotStarted -> kRunning is ONE
+// step there (FuRunCas), so a claim that is not atomic (check-then-act, a re-read, an exchange split in two) behaves
+// exactly like the CAS.  Here the real code runs free: for every round a future is queued on a one-thread pool behind a
+// "gate" task the worker is spinning in; the owner opens the gate, spins for `d` loop turns and calls get() / wait():
+// Future::wait() / get() always try to run a not-started future on the waiter (also for kNotDeferred futures), so the
+// waiter's claim and the pool task's claim land within a few ns of each other.  `d` follows a feedback rule (+2 when the
+// waiter won, -2 when the pool won) plus random dither, which keeps the two claims overlapping whatever the machine
+// load is.  In a quarter of the rounds a second thread calls get() on a copy at the same moment (waiter vs waiter vs
+// pool).  Futures: kNotDeferred and deferred (default) policy, constructor and dispenso::async, on the ThreadPool, a
+// TaskSet and a ConcurrentTaskSet.  No wall-clock judgement; one record per batch of rounds (what the callers saw).
+struct RaceProbe { // a member of the functor: counts the live copies of the functor
+  std::atomic<long long>* live;
+  explicit RaceProbe(std::atomic<long long>* l) : live(l) {
+    live->fetch_add(1, std::memory_order_relaxed);
+  }
+  RaceProbe(const RaceProbe& o) : live(o.live) {
+    live->fetch_add(1, std::memory_order_relaxed);
+  }
+  ~RaceProbe() {
+    live->fetch_sub(1, std::memory_order_relaxed);
+  }
+};
+
+struct RaceHelper {
+  std::atomic<long long> round{-1}, done{-1};
+  std::atomic<long long>* gateOpen{nullptr};
+  std::atomic<int> stop{0};
+  Future<int> copy;
+  long long id = 0;
+  int spin = 0;
+  int value = 0;
+};
+
+static std::atomic<long long> g_raceBeat{0}; // progress counter watched by the watchdog
+static std::mutex g_raceOut;
+
+static int runRace(const drv::Args& a) {
+  std::string out = a.str("out", "race.ndjson");
+  FILE* f = fopen(out.c_str(), "w");
+  if (!f)
+    return 2;
+  long long rounds = a.num("race", 20000);
+  long long batch = a.num("batch", 2000);
+  uint64_t rng = (uint64_t)a.num("seed", 1) * 0x9e3779b97f4a7c15ULL + 1801;
+  static std::atomic<long long> curBatch{0}, batchesDone{0};
+  static std::atomic<int> finished{0};
+  // a hang of the real code (a waiter that is never woken, a task set whose counter never returns to zero) is a
+  // record: no progress for 20 s => {"stuck":1}, then the process ends
+  std::thread([f]() {
+    long long last = -1;
+    int quiet = 0;
+    while (!finished.load()) {
+      struct timespec ts {
+        0, 100 * 1000 * 1000
+      };
+      nanosleep(&ts, nullptr);
+      long long b = g_raceBeat.load();
+      quiet = b == last ? quiet + 1 : 0;
+      last = b;
+      if (quiet >= 200) {
+        std::lock_guard<std::mutex> lk(g_raceOut);
+        fprintf(f, "{\"e\":\"Race\",\"batch\":%lld,\"rounds\":0,\"nd\":0,\"multi\":0,\"never\":0,\"diff\":0,\"flive\":0,\"live\":0,"
+                   "\"tsc\":0,\"inl\":0,\"inlnd\":0,\"stuck\":1}\n", curBatch.load());
+        fflush(f);
+        printf("DRIVER executions=%lld steps=0 completed=%lld deadlocks=1 diverged=0 stuck=0\n", batchesDone.load() + 1,
+               batchesDone.load());
+        fflush(stdout);
+        _exit(0);
+      }
+    }
+  }).detach();
+
+  static RaceHelper hs; // static: a stuck helper may outlive this function
+  std::thread helper([]() {
+    tlsWaiter = 2;
+    long long seen = -1;
+    while (!hs.stop.load(std::memory_order_acquire)) {
+      long long r = hs.round.load(std::memory_order_acquire);
+      if (r == seen)
+        continue;
+      seen = r;
+      while (hs.gateOpen->load(std::memory_order_acquire) < hs.id) {
+      }
+      for (volatile int k = 0; k < hs.spin; ++k) {
+      }
+      hs.value = hs.copy.get();
+      hs.copy = Future<int>();
+      hs.done.store(r, std::memory_order_release);
+    }
+  });
+  tlsWaiter = 1;
+
+  const int kRing = 8;
+  int d[3] = {0, 0, 0}; // the owner's spin before get(), per schedulable kind
+  long long nrounds = 0, gid = 0;
+  bool bail = false;
+  for (long long b = 0; b * batch < rounds && !bail; ++b) {
+    curBatch.store(b);
+    long long n = std::min(batch, rounds - b * batch);
+    std::unique_ptr<std::atomic<int>[]> execs(new std::atomic<int>[n]);
+    std::unique_ptr<std::atomic<int>[]> inl(new std::atomic<int>[n]);
+    for (long long i = 0; i < n; ++i) {
+      execs[i].store(0);
+      inl[i].store(0);
+    }
+    std::atomic<long long> flive{0};
+    std::atomic<long long> gateStarted{0}, gateOpen{0};
+    hs.gateOpen = &gateOpen;
+    long long diff = 0, nd = 0, inlnd = 0, ninl = 0, tsc = 0;
+    {
+      std::lock_guard<std::mutex> lk(g_reg.mu);
+      g_reg.clear();
+    }
+    auto* pool = new dispenso::ThreadPool(1);
+    auto* ts5 = new dispenso::TaskSet(*pool);
+    auto* ts6 = new dispenso::ConcurrentTaskSet(*pool);
+    auto scheduleGate = [&](long long id) {
+      pool->schedule(
+          [&gateStarted, &gateOpen, id]() {
+            gateStarted.store(id, std::memory_order_release);
+            while (gateOpen.load(std::memory_order_acquire) < id) {
+            }
+          },
+          dispenso::ForceQueuingTag());
+    };
+    {
+      Future<int> ring[kRing];
+      int expect[kRing] = {0};
+      scheduleGate(1);
+      for (long long i = 0; i < n; ++i) {
+        const long long id = i + 1;
+        while (gateStarted.load(std::memory_order_acquire) < id) {
+        }
+        // a getter that comes long after the future was resolved (and its queued task consumed) sees the same value
+        const int slot = (int)(i % kRing);
+        if (ring[slot].valid() && ring[slot].get() != expect[slot])
+          ++diff;
+        uint64_t x = ctl::splitmix(rng);
+        int kind = (x & 3) == 3 ? 2 : (x & 3) == 2 ? 1 : 0; // 0 ThreadPool, 1 TaskSet, 2 ConcurrentTaskSet
+        int defer = (int)((x >> 2) & 1);
+        bool viaAsync = ((x >> 3) & 3) == 0;
+        bool useWait = ((x >> 5) & 3) == 0; // wait() then get(), instead of get()
+        bool two = ((x >> 7) & 3) == 0; // a second getter on another thread
+        int dither = (int)((x >> 9) % 33) - 16;
+        int dither2 = (int)((x >> 16) % 65) - 32;
+        std::atomic<int>* cnt = &execs[i];
+        std::atomic<int>* in = &inl[i];
+        const int val = (int)((++gid & 0xfffff) * 16); // the functor's value: val + number of earlier executions
+        RaceProbe probe(&flive);
+        auto fn = [cnt, in, val, probe]() -> int {
+          if (tlsWaiter)
+            in->store(tlsWaiter, std::memory_order_relaxed);
+          return val + cnt->fetch_add(1, std::memory_order_acq_rel);
+        };
+        std::launch policy =
+            static_cast<std::launch>(static_cast<int>(std::launch::async) | static_cast<int>(deferP(defer)));
+        Future<int> fut;
+        if (viaAsync) {
+          if (kind == 0)
+            fut = dispenso::async(*pool, policy, std::move(fn));
+          else if (kind == 1)
+            fut = dispenso::async(*ts5, policy, std::move(fn));
+          else
+            fut = dispenso::async(*ts6, policy, std::move(fn));
+        } else {
+          if (kind == 0)
+            fut = Future<int>(std::move(fn), *pool, std::launch::async, deferP(defer));
+          else if (kind == 1)
+            fut = Future<int>(std::move(fn), *ts5, std::launch::async, deferP(defer));
+          else
+            fut = Future<int>(std::move(fn), *ts6, std::launch::async, deferP(defer));
+        }
+        scheduleGate(id + 1); // the worker never goes idle
+        int spin = std::max(0, d[kind] + dither);
+        if (two) {
+          hs.copy = fut;
+          hs.id = id;
+          hs.spin = std::max(0, d[kind] + dither2);
+          hs.round.store(gid, std::memory_order_release);
+        }
+        gateOpen.store(id, std::memory_order_release); // the worker leaves the gate and pops the future's task
+        for (volatile int k = 0; k < spin; ++k) {
+        }
+        if (useWait)
+          fut.wait();
+        int v = fut.get();
+        if (v != val)
+          ++diff;
+        if (two) {
+          while (hs.done.load(std::memory_order_acquire) != gid) {
+          }
+          if (hs.value != val)
+            ++diff;
+        }
+        expect[slot] = val;
+        ring[slot] = std::move(fut);
+        int who = in->load(std::memory_order_relaxed);
+        if (who == 1) {
+          d[kind] += 2;
+        } else {
+          d[kind] = d[kind] >= 2 ? d[kind] - 2 : 0;
+        }
+        if (who)
+          ++ninl;
+        if (!defer) {
+          ++nd;
+          if (who)
+            ++inlnd;
+        }
+        g_raceBeat.fetch_add(1, std::memory_order_relaxed);
+      }
+      for (int s = 0; s < kRing; ++s)
+        if (ring[s].valid() && ring[s].get() != expect[s])
+          ++diff;
+      gateOpen.store(n + 2, std::memory_order_release);
+    } // every handle is gone
+    // every future bound to a task set has run: the set's outstanding-task counter returns to zero (wait() returns)
+    long long t0 = nowNs();
+    while (true) {
+      tsc = (long long)ts5->outstandingTaskCount_.load() + (long long)ts6->outstandingTaskCount_.load();
+      long long each = std::min<long long>(ts5->outstandingTaskCount_.load(), ts6->outstandingTaskCount_.load());
+      if ((tsc <= 0 && each <= 0) || nowNs() - t0 > 10LL * 1000 * 1000 * 1000)
+        break;
+    }
+    long long c5 = ts5->outstandingTaskCount_.load(), c6 = ts6->outstandingTaskCount_.load();
+    tsc = c5 != 0 ? c5 : c6;
+    long long multi = 0, never = 0, live = 0;
+    if (c5 == 0 && c6 == 0) {
+      ts5->wait();
+      ts6->wait();
+      delete ts5;
+      delete ts6;
+      delete pool; // every queued task has been invoked
+      std::lock_guard<std::mutex> lk(g_reg.mu);
+      live = (long long)g_reg.live.size();
+    } else {
+      bail = true; // TaskSet::wait() / ~TaskSet would never return: the record says so, the process ends
+    }
+    for (long long i = 0; i < n; ++i) {
+      int e = execs[i].load();
+      if (e > 1)
+        ++multi;
+      else if (e < 1)
+        ++never;
+    }
+    nrounds += n;
+    {
+      std::lock_guard<std::mutex> lk(g_raceOut);
+      fprintf(f, "{\"e\":\"Race\",\"batch\":%lld,\"rounds\":%lld,\"nd\":%lld,\"multi\":%lld,\"never\":%lld,\"diff\":%lld,"
+                 "\"flive\":%lld,\"live\":%lld,\"tsc\":%lld,\"inl\":%lld,\"inlnd\":%lld,\"stuck\":0}\n",
+              b, n, nd, multi, never, diff, bail ? 0 : flive.load(), live, tsc, ninl, inlnd);
+      fflush(f);
+    }
+    batchesDone.fetch_add(1);
+    if (bail) {
+      printf("DRIVER executions=%lld steps=%lld completed=%lld deadlocks=0 diverged=0 stuck=0\n", batchesDone.load(), nrounds,
+             batchesDone.load());
+      fflush(stdout);
+      _exit(0);
+    }
+  }
+  finished.store(1);
+  hs.stop.store(1, std::memory_order_release);
+  helper.join();
+  {
+    std::lock_guard<std::mutex> lk(g_raceOut);
+    fclose(f);
+  }
+  printf("DRIVER executions=%lld steps=%lld completed=%lld deadlocks=0 diverged=0 stuck=0\n", batchesDone.load(), nrounds,
+         batchesDone.load());
+  fflush(stdout);
+  return 0;
+}
+
 int main(int argc, char** argv) {
   drv::Args a(argc, argv);
+  if (a.has("race")) {
+    int rc = runRace(a);
+    fflush(stdout);
+    _exit(rc);
+  }
   if (a.has("linkpool")) {
     int rc = runLinkPool(a);
     fflush(stdout);
